@@ -112,17 +112,21 @@ inductive AVal where
   | bytes (b : Bytes)
   deriving DecidableEq, Repr
 
+/-- an attribute that does not exist: AttributeError -/
+def AVal.lift : Option AVal → R AVal
+  | some v => .ok v
+  | none => .error .attribute
+
 /-- `getattr(self, name)`: AttributeError when the attribute does not exist -/
 def AFDX.getattr (s : AFDX) (name : String) : R AVal :=
-  let lift (o : Option AVal) : R AVal := match o with | some v => .ok v | none => .error .attribute
   match name with
-  | "type" => lift (s.type.map .nat)
-  | "networkID" => lift (s.networkID.map .nat)
-  | "equipmentID" => lift (s.equipmentID.map .nat)
-  | "interfaceID" => lift (s.interfaceID.map .nat)
-  | "vlink" => lift (s.vlink.map .nat)
-  | "payload" => lift (s.payload.map .bytes)
-  | "sequencenum" => lift (s.sequencenum.map .nat)
+  | "type" => AVal.lift (s.type.map .nat)
+  | "networkID" => AVal.lift (s.networkID.map .nat)
+  | "equipmentID" => AVal.lift (s.equipmentID.map .nat)
+  | "interfaceID" => AVal.lift (s.interfaceID.map .nat)
+  | "vlink" => AVal.lift (s.vlink.map .nat)
+  | "payload" => AVal.lift (s.payload.map .bytes)
+  | "sequencenum" => AVal.lift (s.sequencenum.map .nat)
   | _ => .error .attribute
 
 /-- `for attr in [...]: if getattr(self, attr) != getattr(other, attr): return False` … `return True` -/
